@@ -15,10 +15,25 @@ package main
 import (
 	"fmt"
 	"os"
+	"path/filepath"
 	"strconv"
 )
 
-const verifDir = "/verif"
+// verifDir is the directory holding bin/, harness/, evidence/ … : the parent
+// of the directory of this executable (so that a snapshot of /verif run
+// elsewhere writes into itself), or $FALCOSIM_HOME.
+var verifDir = func() string {
+	if d := os.Getenv("FALCOSIM_HOME"); d != "" {
+		return d
+	}
+	if exe, err := os.Executable(); err == nil {
+		if r, err := filepath.EvalSymlinks(exe); err == nil {
+			exe = r
+		}
+		return filepath.Dir(filepath.Dir(exe))
+	}
+	return "/verif"
+}()
 
 type propInfo struct {
 	Engine  string
